@@ -74,7 +74,9 @@ impl Prop for C15 {
         let sp1 = super::c02::take_spelling(t, 20);
         let sp2 = super::c02::take_spelling(t, 20);
         // renaming choices are drawn before the program so that they survive a long program
-        let fresh_pool = names::distinct(t, 45);
+        // one case in six: adversarial naming, every fresh name from a family of names that are easily confused
+        // (same letters with other word breaks, one name a prefix of another, simple / common / proper look-alikes)
+        let fresh_pool = if t.chance(1, 6) { names::distinct_adversarial(t, 45) } else { names::distinct(t, 45) };
         let recase_tape: Vec<u32> = (0..40).map(|_| t.raw()).collect();
         let original = match t.pick(3) {
             0 => FlowGen::new(t).program(),
